@@ -693,6 +693,19 @@ pub(crate) fn openat2<Fd: AsFd, P: AsRef<Path>>(
         how.flags |= libc::O_NOCTTY as u64;
     }
 
+    // to_c_string() stops at the first NUL byte, so a path with an interior
+    // NUL would silently be truncated (and a prefix of it resolved). Refuse
+    // such paths like rustix does for all of the other wrappers.
+    if path.as_os_str().as_bytes().contains(&b'\0') {
+        return Err(Error::Openat2 {
+            dirfd: dirfd.into(),
+            path: path.into(),
+            how,
+            size: std::mem::size_of::<OpenHow>(),
+            source: Errno::INVAL,
+        });
+    }
+
     // SAFETY: Obviously safe-to-use Linux syscall.
     let fd = unsafe {
         libc::syscall(
